@@ -129,6 +129,12 @@ Lemma Forall2_node_ext : forall c c' ks es, ctx_ext c c' ->
   Forall2 (fun k e => node c k = Some e) ks es -> Forall2 (fun k e => node c' k = Some e) ks es.
 Proof. intros c c' ks es X H. induction H; constructor; [eapply node_ext; eassumption|assumption]. Qed.
 
+Lemma Forall2_rev_local : forall (A B : Type) (R : A -> B -> Prop) l1 l2, Forall2 R l1 l2 -> Forall2 R (rev l1) (rev l2).
+Proof.
+  intros A B R l1 l2 H. induction H as [|x y l1 l2 Hxy _ IH]; cbn [rev]; [constructor|].
+  apply Forall2_app; [exact IH|]. constructor; [exact Hxy|constructor].
+Qed.
+
 (** ** the container over references and the association list over trees hold the same entries *)
 Section Sim.
   Variable M : Type.
@@ -203,5 +209,126 @@ Section Sim.
     - destruct G as (ev & Hv & Hl). rewrite Hl. rewrite (ref_eqb_tree c k v e ev (inv_wf _ _ _ I) Hk Hv).
       destruct (expr_eqb e ev); [exact Hk|]. apply IH; assumption.
     - rewrite G. exact Logic.I.
+  Qed.
+
+  Definition gfp_rel (c : ctx) (x : gfp) (y : gfp_res M) : Prop :=
+    match x, y with
+    | GSome a' v, GfpSome m' kv => Inv c m' a' /\ node c kv = Some v
+    | GNone a', GfpNone m' => Inv c m' a'
+    | GFuel, GfpFuel => True
+    | _, _ => False
+    end.
+
+  Lemma compress_sim : forall fuel c m a k e kf final, Inv c m a -> node c k = Some e -> node c kf = Some final ->
+    gfp_rel c (compress fuel a e final) (gfp_update o fuel m k kf).
+  Proof.
+    intro fuel. induction fuel as [|f IH]; intros c m a k e kf final I Hk Hf; cbn [compress gfp_update]; [exact Logic.I|].
+    rewrite (ref_eqb_tree c k kf e final (inv_wf _ _ _ I) Hk Hf).
+    destruct (expr_eqb e final); [split; assumption|].
+    pose proof (lookup_get c m a k e I Hk) as G.
+    destruct (mo_get o m k) as [v|].
+    - destruct G as (ev & Hv & Hl). rewrite Hl. apply IH; [apply Inv_update; assumption|exact Hv|exact Hf].
+    - rewrite G. exact I.
+  Qed.
+
+  Lemma gfp_sim : forall fuel c m a k e, Inv c m a -> node c k = Some e ->
+    gfp_rel c (SimplifyCache.get_fixed_point fuel a e) (ExprMeta.get_fixed_point o fuel m k).
+  Proof.
+    intros fuel c m a k e I Hk. unfold SimplifyCache.get_fixed_point, ExprMeta.get_fixed_point.
+    pose proof (lookup_get c m a k e I Hk) as G.
+    destruct (mo_get o m k) as [v|].
+    - destruct G as (ev & Hv & Hl). rewrite Hl. rewrite (ref_eqb_tree c k v e ev (inv_wf _ _ _ I) Hk Hv).
+      destruct (expr_eqb e ev); [split; assumption|].
+      pose proof (chase_sim fuel c m a k e I Hk) as C.
+      destruct (chase fuel a e) as [[fin|]|]; destruct (gfp_chase o fuel m k) as [[kf|]|]; cbn in C; try contradiction.
+      + apply compress_sim; assumption.
+      + exact I.
+      + exact Logic.I.
+    - rewrite G. exact I.
+  Qed.
+
+  (** *** the [for_each_child] closure *)
+  Notation nodes_are c := (Forall2 (fun k e => node c k = Some e)).
+
+  Definition visit_rel (c : ctx) (x : vres) (y : vres_r M) : Prop :=
+    match x, y with
+    | VOk a' cs chg miss, VOkR m' kcs chg' kmiss =>
+        Inv c m' a' /\ nodes_are c kcs cs /\ chg = chg' /\ nodes_are c kmiss miss
+    | VFuel, VFuelR => True
+    | _, _ => False
+    end.
+
+  Lemma visit_sim : forall fuel c ks chs m a, Inv c m a -> nodes_are c ks chs ->
+    visit_rel c (visit fuel a chs) (visit_r o fuel m ks).
+  Proof.
+    intros fuel c ks chs m a I H. revert m a I. induction H as [|k ch ks chs Hk Hrest IH]; intros m a I; cbn [visit visit_r].
+    - split; [exact I|]. split; [constructor|]. split; [reflexivity|constructor].
+    - pose proof (gfp_sim fuel c m a k ch I Hk) as G.
+      destruct (SimplifyCache.get_fixed_point fuel a ch) as [a1 v|a1|];
+        destruct (ExprMeta.get_fixed_point o fuel m k) as [m1 kv|m1|]; cbn in G; try contradiction.
+      + destruct G as [I1 Hv]. specialize (IH m1 a1 I1).
+        destruct (visit fuel a1 chs) as [a2 cs chg miss|]; destruct (visit_r o fuel m1 ks) as [m2 kcs chg' kmiss|];
+          cbn in IH; try contradiction; [|exact Logic.I].
+        destruct IH as (I2 & C & E & Mi). subst chg'. cbn.
+        split; [exact I2|]. split; [constructor; assumption|]. split; [|exact Mi].
+        rewrite (ref_eqb_tree c kv k v ch (inv_wf _ _ _ I) Hv Hk). reflexivity.
+      + specialize (IH m1 a1 G).
+        destruct (visit fuel a1 chs) as [a2 cs chg miss|]; destruct (visit_r o fuel m1 ks) as [m2 kcs chg' kmiss|];
+          cbn in IH; try contradiction; [|exact Logic.I].
+        destruct IH as (I2 & C & E & Mi). cbn. split; [exact I2|]. split; [exact C|]. split; [exact E|]. constructor; assumption.
+      + exact Logic.I.
+  Qed.
+
+  (** *** the work-stack loop *)
+  Definition run_rel (c : ctx) (x : rres) (y : rres_r M) : Prop :=
+    match x, y with
+    | ROk a', ROkR c' m' => Inv c' m' a' /\ ctx_ext c c'
+    | RPanic, RPanicR => True
+    | RFuel, RFuelR => True
+    | _, _ => False
+    end.
+
+  Lemma run_rel_ext : forall c c' x y, ctx_ext c c' -> run_rel c' x y -> run_rel c x y.
+  Proof.
+    intros c c' x y X H. destruct x; destruct y; cbn in *; try contradiction; try exact Logic.I.
+    destruct H as [I X']. split; [exact I|eapply ctx_ext_trans; eassumption].
+  Qed.
+
+  Lemma run_sim : forall fuel c m a ktodo todo, Inv c m a -> nodes_are c ktodo todo ->
+    run_rel c (run fuel a todo) (run_r o fuel c m ktodo).
+  Proof.
+    intro fuel. induction fuel as [|f IH]; intros c m a ktodo todo I T; cbn [run run_r]; [exact Logic.I|].
+    destruct T as [|r e krest rest Hr Trest]; [split; [exact I|apply ctx_ext_refl]|].
+    rewrite Hr.
+    destruct (intern_all c (children e)) as [c0 chs] eqn:A.
+    destruct (intern_all_spec _ _ _ _ (inv_wf _ _ _ I) A) as (W0 & X0 & Fch).
+    pose proof (Inv_ext c c0 m a I W0 X0) as I0.
+    pose proof (visit_sim f c0 chs (children e) m a I0 Fch) as V.
+    destruct (visit f a (children e)) as [a1 cs chg miss|]; destruct (visit_r o f m chs) as [m1 kcs chg' kmiss|];
+      cbn in V; try contradiction; [|exact Logic.I].
+    destruct V as (I1 & C & E & Mi). subst chg'.
+    pose proof (node_ext _ _ _ _ X0 Hr) as Hr0.
+    pose proof (Forall2_node_ext _ _ _ _ X0 Trest) as Trest0.
+    destruct Mi as [|km mi kms mis Hm Hms].
+    - rewrite (nodes_Forall2 c0 kcs cs C).
+      destruct (simplify e cs) as [res|]; [|exact Logic.I].
+      set (new := match res with Some x => x | None => if chg then rebuild e cs else e end).
+      destruct (intern c0 new) as [c1 nr] eqn:In.
+      destruct (intern_spec _ _ _ _ W0 In) as (W1 & X1 & Hn).
+      pose proof (Inv_ext c0 c1 m1 a1 I1 W1 X1) as I1'.
+      pose proof (node_ext _ _ _ _ X1 Hr0) as Hr1.
+      pose proof (Inv_update c1 m1 a1 r nr e new I1' Hr1 Hn) as I2.
+      rewrite (ref_eqb_tree c1 r nr e new W1 Hr1 Hn).
+      pose proof (lookup_get c1 _ _ nr new I2 Hn) as G.
+      assert (is_none_r (mo_get o (mo_set o m1 r (Some nr)) nr) = is_none (lookup (update a1 e new) new)) as En.
+      { destruct (mo_get o (mo_set o m1 r (Some nr)) nr) as [v|]; [destruct G as (ev & _ & Hl); rewrite Hl|rewrite G]; reflexivity. }
+      rewrite En.
+      apply (run_rel_ext c c1); [eapply ctx_ext_trans; eassumption|].
+      pose proof (Forall2_node_ext _ _ _ _ X1 Trest0) as Trest1.
+      destruct (negb (expr_eqb e new) && is_none (lookup (update a1 e new) new)); apply IH; try exact I2; try exact Trest1.
+      constructor; assumption.
+    - apply (run_rel_ext c c0); [exact X0|]. apply IH; [exact I1|].
+      apply Forall2_app; [|constructor; assumption].
+      apply Forall2_rev_local. constructor; assumption.
   Qed.
 End Sim.
